@@ -59,9 +59,15 @@ add_resource / add_window: the top-level statements are split into those that to
 `_namespace` or `MemoryMap.Name`, or assign / delete a local such a statement uses) and the others.  The first kind is
 translated; each maximal run of the second kind becomes a parameter `blk_i : res unit` (it may raise, it may read but not
 write the tracked locals, it must not mention `_namespace` / `_assignments` and must not `return` unless it is the final
-statement).  The generated function returns the final `self._namespace`; so it fixes which names are queried, with
-which `reasons`, which exception a refusal raises, and where - relative to the opaque blocks that can still raise -
-the namespace is updated.
+statement), except that a statement calling `self._compute_addr_range` or `self._ranges.insert` (the statements the
+model lets raise after the namespace check) stands alone as the named parameter `eff_compute_addr_range` /
+`eff_ranges_insert`, so that the generated text fixes where the namespace update happens relative to them.  The generated function returns the pair (`self._namespace` when the call ends - normally or by an exception -,
+outcome): every exception carries the namespace as it is at that moment (`bind_st`), so the function fixes which names
+are queried, with which `reasons`, which exception a refusal raises, and where - relative to the opaque blocks that can
+still raise - the namespace is updated (an update in front of a statement that raises shows in the result).  In this
+mode an `if` always copies the following statements into both arms (no join), and loops are not supported.
+The methods of `_Namespace` themselves return `res (new keys)`, which stands for "an exception leaves the dict as it
+was": the translation aborts if a statement that can raise follows a change of the dict in the same method.
 
 Anchors checked by shape: `MemoryMap.__init__` contains `self._namespace = _Namespace()`; no other method of MemoryMap
 than __init__ / add_resource / add_window / __repr__ mentions `_namespace`; `_assignments` is mentioned only inside
@@ -159,9 +165,14 @@ class Opaque(ast.stmt):
     """a run of statements of add_resource / add_window that does not touch the namespace"""
     _fields = ()
 
-    def __init__(self, k, stmts):
+    def __init__(self, name, stmts):
         super().__init__()
-        self.k, self.stmts = k, stmts
+        self.name, self.stmts = name, stmts
+
+
+# statements of add_resource / add_window that the model lets raise after the namespace check: each stands alone as a
+# named parameter, so that its position relative to the namespace update is part of the generated text
+LANDMARKS = {"self._compute_addr_range": "eff_compute_addr_range", "self._ranges.insert": "eff_ranges_insert"}
 
 
 # ---------------------------------------------------------------------------------------------- contexts
@@ -222,9 +233,11 @@ class JoinCtx:
 # ---------------------------------------------------------------------------------------------- translator
 
 class T:
-    def __init__(self, state_key=None, ns_methods=True):
+    def __init__(self, state_key=None, stateful=False):
         self.n = 0
         self.state_key = state_key          # env key of the mutable namespace state, or None
+        self.stateful = stateful            # result = (final state, res unit): the state survives an exception
+        self.mutated = False                # (not stateful) the state has been changed on this path
         self.consumed = set()
 
     def fresh(self, base):
@@ -237,6 +250,34 @@ class T:
         for (v, rhs) in reversed(list(pre)):
             body = f"(let! {v} := {rhs} in\n  {body})"
         return body
+
+    def can_raise(self):
+        """`res (state)` stands for "exception => state unchanged": nothing may raise once the state has changed"""
+        if self.mutated and not self.stateful:
+            raise Untranslatable("a statement that can raise follows a change of the namespace in the same method")
+
+    def swrap(self, pre, body, env):
+        """statement-level bindings: an exception propagates with the current state"""
+        pre = list(pre)
+        if pre:
+            self.can_raise()
+        if not self.stateful:
+            return self.wrap(pre, body)
+        st = env[self.state_key].s
+        for (v, rhs) in reversed(pre):
+            body = f"(bind_st {st} {rhs} (fun {v} =>\n  {body}))"
+        return body
+
+    def err(self, exc, env):
+        self.can_raise()
+        return f"({env[self.state_key].s}, Err {exc})" if self.stateful else f"(Err {exc})"
+
+    def after_mutation(self, rest, env, K):
+        old, self.mutated = self.mutated, True
+        try:
+            return self.block(rest, env, K)
+        finally:
+            self.mutated = old
 
     def bindm(self, base, rhs, t, pre=()):
         v = self.fresh(base)
@@ -649,7 +690,7 @@ class T:
             raise Untranslatable(f"isinstance({v.t}, {cls}) cannot be decided by the representation")
         return self.truth(self.expr(n, env))
 
-    def branch(self, test, env, fthen, felse):
+    def branch(self, test, env, fthen, felse, stmt=False):
         neg, t = False, test
         while isinstance(t, ast.UnaryOp) and isinstance(t.op, ast.Not):
             neg, t = not neg, t.operand
@@ -672,7 +713,8 @@ class T:
                 return f"(if {v.s} then {f_some(e_some)} else {f_none(e_none)})"
             return f_some(env)
         c = self.truth(self.cond(test, env))
-        return self.wrap(c.pre, f"(if {c.s} then {fthen(env)} else {felse(env)})")
+        txt = f"(if {c.s} then {fthen(env)} else {felse(env)})"
+        return self.swrap(c.pre, txt, env) if stmt else self.wrap(c.pre, txt)
 
     # ---- statements
     def target_key(self, t):
@@ -757,18 +799,18 @@ class T:
         if is_doc(st) or isinstance(st, ast.Pass):
             return self.block(rest, env, K)
         if message_then_raise(stmts):
-            return f"(Err {self.exc(stmts[-1])})"
+            return self.err(self.exc(stmts[-1]), env)
         if isinstance(st, Opaque):
-            return f"(let! _ := blk_{st.k} in\n  {self.block(rest, env, K)})"
+            return self.swrap([("_", st.name)], self.block(rest, env, K), env)
         if isinstance(st, ast.Raise):
-            return f"(Err {self.exc(st)})"
+            return self.err(self.exc(st), env)
         if isinstance(st, ast.Break):
             return K.brk(env)
         if isinstance(st, ast.Continue):
             return K.cont(env)
         if isinstance(st, ast.Return):
             v = self.expr(st.value, env) if st.value is not None else None
-            return self.wrap(v.pre if v else [], K.ret(v, env))
+            return self.swrap(v.pre if v else [], K.ret(v, env), env)
         if isinstance(st, ast.Delete):
             env2 = dict(env)
             for t in st.targets:
@@ -778,7 +820,7 @@ class T:
             return self.block(rest, env2, K)
         if isinstance(st, ast.Assert):
             c = self.truth(self.cond(st.test, env))
-            return self.wrap(c.pre, f"(if negb {c.s} then Err AssertionError else\n  {self.block(rest, env, K)})")
+            return self.swrap(c.pre, f"(if negb {c.s} then {self.err('AssertionError', env)} else\n  {self.block(rest, env, K)})", env)
         if isinstance(st, ast.Assign) and len(st.targets) == 1:
             t = st.targets[0]
             if isinstance(t, ast.Name):
@@ -789,31 +831,31 @@ class T:
                 env2[t.id] = V(nm, v.t, (), origin)
                 if v.t == "emptylist":
                     env2[t.id] = V("tt", "sink")
-                    return self.wrap(v.pre, self.block(rest, env2, K))
+                    return self.swrap(v.pre, self.block(rest, env2, K), env)
                 if v.t == "none":
                     env2[t.id] = V("None", "none")
-                    return self.wrap(v.pre, self.block(rest, env2, K))
-                return self.wrap(v.pre, f"(let {nm} := {v.s} in\n  {self.block(rest, env2, K)})")
+                    return self.swrap(v.pre, self.block(rest, env2, K), env)
+                return self.swrap(v.pre, f"(let {nm} := {v.s} in\n  {self.block(rest, env2, K)})", env)
             key = self.target_key(t)
             if key is not None and key == self.state_key and isinstance(t, ast.Attribute):
                 v = self.expr(st.value, env)
                 if not (isinstance(v.t, tuple) and v.t[0] == "dict" and v.t[1] == NAME):
                     raise Untranslatable(f"{key} = a value of type {v.t}")
                 nm, env2 = self.set_state(env, key, v.s)
-                return self.wrap(v.pre, f"(let {nm} := {v.s} in\n  {self.block(rest, env2, K)})")
+                return self.swrap(v.pre, f"(let {nm} := {v.s} in\n  {self.after_mutation(rest, env2, K)})", env)
             if key is not None and key == self.state_key and isinstance(t, ast.Subscript) and key in env \
                     and env[key].t == ("dict", NAME):
                 k = self.expr(t.slice, env)
                 if k.t != NAME or not isinstance(st.value, ast.Name):
                     raise Untranslatable("dict store " + ast.unparse(st)[:80])
                 nm, env2 = self.set_state(env, key, None)
-                return self.wrap(k.pre, f"(let {nm} := ns_set {env[key].s} {k.s} in\n  {self.block(rest, env2, K)})")
+                return self.swrap(k.pre, f"(let {nm} := ns_set {env[key].s} {k.s} in\n  {self.after_mutation(rest, env2, K)})", env)
             raise Untranslatable("assignment " + ast.unparse(st)[:80])
         if isinstance(st, ast.Expr) and isinstance(st.value, ast.Call) and isinstance(st.value.func, ast.Attribute):
             c = st.value; f = c.func
             if f.attr == "append" and isinstance(f.value, ast.Name) and f.value.id in env and env[f.value.id].t == "sink" \
                     and len(c.args) == 1 and not c.keywords:
-                return self.wrap(self.effects(c.args[0], env), self.block(rest, env, K))
+                return self.swrap(self.effects(c.args[0], env), self.block(rest, env, K), env)
             try:
                 key = attr_path(f.value)
             except Untranslatable:
@@ -826,26 +868,28 @@ class T:
                     if o.t != ("dict", NAME):
                         raise Untranslatable("update with a non-dict")
                     nm, env2 = self.set_state(env, key, None)
-                    return self.wrap(o.pre, f"(let {nm} := ns_update {cur.s} {o.s} in\n  {self.block(rest, env2, K)})")
+                    return self.swrap(o.pre, f"(let {nm} := ns_update {cur.s} {o.s} in\n  {self.after_mutation(rest, env2, K)})", env)
                 if f.attr == "assign" and cur.t == NS and len(c.args) == 2 and isinstance(c.args[1], ast.Name):
                     a = self.expr(c.args[0], env)
                     nm, env2 = self.set_state(env, key, None)
-                    return self.wrap(a.pre, f"(let! {nm} := gen_ns_assign {cur.s} {self.as_raw(a)} in\n  {self.block(rest, env2, K)})")
+                    return self.swrap(a.pre + [(nm, f"(gen_ns_assign {cur.s} {self.as_raw(a)})")], self.after_mutation(rest, env2, K), env)
                 if f.attr == "extend" and cur.t == NS and len(c.args) == 1:
                     o = self.expr(c.args[0], env)
                     if o.t != NS:
                         raise Untranslatable("extend with a non-namespace")
                     nm, env2 = self.set_state(env, key, None)
-                    return self.wrap(o.pre, f"(let! {nm} := gen_ns_extend {cur.s} {o.s} in\n  {self.block(rest, env2, K)})")
+                    return self.swrap(o.pre + [(nm, f"(gen_ns_extend {cur.s} {o.s})")], self.after_mutation(rest, env2, K), env)
             raise Untranslatable("statement " + ast.unparse(st)[:80])
         if isinstance(st, ast.If):
             if terminates(st.body) and not st.orelse:
-                return self.branch(st.test, env, lambda e: self.block(st.body, e, K), lambda e: self.block(rest, e, K))
-            if not escapes(st.body) and not escapes(st.orelse):
+                return self.branch(st.test, env, lambda e: self.block(st.body, e, K), lambda e: self.block(rest, e, K), True)
+            if not escapes(st.body) and not escapes(st.orelse) and not self.stateful:
                 return self.if_join(st, rest, env, K)
             return self.branch(st.test, env, lambda e: self.block(st.body + rest, e, K),
-                               lambda e: self.block(st.orelse + rest, e, K))
+                               lambda e: self.block(st.orelse + rest, e, K), True)
         if isinstance(st, ast.For):
+            if self.stateful:
+                raise Untranslatable("a loop among the namespace statements of a MemoryMap method")
             return self.for_loop(st, rest, env, K)
         raise Untranslatable("statement " + ast.unparse(st)[:80])
 
@@ -865,12 +909,14 @@ class T:
             types[x] = self.join_types([e[x].t for e in envs])
         J2 = JoinCtx(lambda e: "(Ok " + tup(self.coerce(e[x], types[x]) for x in names) + ")", K)
         txt = self.branch(st.test, env, lambda e: self.block(st.body, e, J2), lambda e: self.block(st.orelse, e, J2))
+        self.can_raise()
         env2 = dict(env); fr = []
         for x in names:
             nm = self.fresh(x)
             origin = f"{x}#{self.n}" if isinstance(types[x], tuple) and types[x][0] == "gen" else None
             env2[x] = V(nm, types[x], (), origin); fr.append(nm)
-        return f"(let! {pat(fr)} := {txt} in\n  {self.block(rest, env2, K)})"
+        tail = self.after_mutation(rest, env2, K) if self.state_key in names else self.block(rest, env2, K)
+        return f"(let! {pat(fr)} := {txt} in\n  {tail})"
 
     def for_loop(self, st, rest, env, K):
         if st.orelse:
@@ -901,15 +947,16 @@ class T:
         st_ty = "unit" if not carried else " * ".join(coqty(env[k].t) for k in carried)
         if carried:
             head += f"let {pat(cs)} := {sv} in\n  "
-        body = self.block(st.body, envb, LoopCtx(carried, K))
+        blk = self.after_mutation if self.state_key in carried else self.block
+        body = blk(st.body, envb, LoopCtx(carried, K))
         sv2 = self.fresh("st"); enva = dict(env); cs2 = []
         for k in carried:
             nm = self.fresh(k); enva[k] = V(nm, env[k].t); cs2.append(nm)
-        tail = (f"let {pat(cs2)} := {sv2} in\n  " if carried else "") + self.block(rest, enva, K)
+        tail = (f"let {pat(cs2)} := {sv2} in\n  " if carried else "") + blk(rest, enva, K)
         comb = "after_loop_in" if K.kind == "loop" else "after_loop"
         txt = (f"({comb} (for_each (fun ({item} : {coqty(et)}) ({sv} : {st_ty}) =>\n  {head}{body})\n"
                f"  {it.s} {tup(env[k].s for k in carried)})\n  (fun ({sv2} : {st_ty}) =>\n  {tail}))")
-        return self.wrap(it.pre, txt)
+        return self.swrap(it.pre, txt, env)
 
 
 # ---------------------------------------------------------------------------------------------- functions
@@ -1044,10 +1091,18 @@ def split_tracked(fn, consts):
                 tracked[i] = True; changed = True
     out, run = [], []
     k = 0
+    seen = set()
     for i, s in enumerate(body):
+        marks = {LANDMARKS[ast.unparse(x.func)] for x in ast.walk(s)
+                 if isinstance(x, ast.Call) and ast.unparse(x.func) in LANDMARKS}
+        if marks & seen or len(marks) > 1:
+            raise Untranslatable(f"{fn.name}: {sorted(marks)} called more than once")
+        seen |= marks
         if tracked[i]:
+            if marks:
+                raise Untranslatable(f"{fn.name}: {sorted(marks)} inside a namespace statement")
             if run:
-                k += 1; out.append(Opaque(k, run)); run = []
+                k += 1; out.append(Opaque(f"blk_{k}", run)); run = []
             out.append(s)
         else:
             if mentions(s, "_assignments"):
@@ -1057,10 +1112,15 @@ def split_tracked(fn, consts):
                     raise Untranslatable(f"{fn.name}: return in the middle of the statements that do not touch the namespace")
                 if isinstance(x, (ast.Global, ast.Nonlocal)):
                     raise Untranslatable(f"{fn.name}: global / nonlocal")
-            run.append(s)
+            if marks:
+                if run:
+                    k += 1; out.append(Opaque(f"blk_{k}", run)); run = []
+                out.append(Opaque(marks.pop(), [s]))
+            else:
+                run.append(s)
     if run:
-        k += 1; out.append(Opaque(k, run))
-    return out, k
+        k += 1; out.append(Opaque(f"blk_{k}", run))
+    return out, [o.name for o in out if isinstance(o, Opaque)]
 
 
 def gen_mm(tree):
@@ -1100,21 +1160,22 @@ def gen_mm(tree):
         stores = {x.id for x in ast.walk(fn) if isinstance(x, ast.Name) and isinstance(x.ctx, (ast.Store, ast.Del))}
         consts -= stores
         stmts, nblk = split_tracked(fn, consts)
-        t = T("self._namespace")
+        t = T("self._namespace", stateful=True)
         env = dict(env0); env["self._namespace"] = V("assigned", NS)
         for p in pos[1:]:
             env.setdefault(p, V("tt", "obj"))
-        K = FnCtx(lambda e: f"(Ok {e['self._namespace'].s})", no_ret, needs=["self._namespace"])
+        K = FnCtx(lambda e: f"({e['self._namespace'].s}, Ok tt)", no_ret, needs=["self._namespace"])
         body = t.block(stmts, env, K)
-        blks = " ".join(f"blk_{i}" for i in range(1, nblk + 1))
+        blks = " ".join(nblk)
         descr = []
         for s in stmts:
             if isinstance(s, Opaque):
-                descr.append(f"   blk_{s.k}: " + " | ".join(ast.unparse(x).split("\n")[0][:60] for x in s.stmts).replace("*)", "* )").replace("(*", "( *"))
-        out.append(f"(* MemoryMap.{meth}: the statements that touch the namespace; result = the final self._namespace.\n"
+                descr.append(f"   {s.name}: " + " | ".join(ast.unparse(x).split("\n")[0][:60] for x in s.stmts).replace("*)", "* )").replace("(*", "( *"))
+        out.append(f"(* MemoryMap.{meth}: the statements that touch the namespace; result = (self._namespace when the call ends,\n"
+                   "   normally or by an exception; outcome).\n"
                    + "\n".join(descr) + " *)\n"
                    f"Definition gen_{meth}_ns (assigned : list name) {params}" + (f" ({blks} : res unit)" if nblk else "")
-                   + f" : res (list name) :=\n  {body}.\n")
+                   + f" : list name * res unit :=\n  {body}.\n")
     return "\n".join(out)
 
 
